@@ -565,7 +565,12 @@ func genC18(g *Gen) {
 		}
 		for _, what := range []string{"variable", "function"} {
 			for _, tpl := range []string{"%s + 1", "p * (%s - q)", "Q + Min(p, %s)", "NOT (%s = p)", "p[%s]", "%s"} {
-				for _, nm := range []string{"zz", "Missing_1", "ÜBER", "x9", "rate%d", "100%", "%s%v", "a b"} {
+				nms := []string{"zz", "Missing_1", "ÜBER", "x9", "rate%d", "100%", "%s%v", "a b"}
+				if what == "variable" {
+					// a variable that is missing stays missing although a default FUNCTION of that name exists
+					nms = append(nms, "Pi", "e", "min", "NOW", "Rnd", "abs")
+				}
+				for _, nm := range nms {
 					name := nm
 					if strings.ContainsAny(nm, "% ") || (nm[0] >= '0' && nm[0] <= '9') {
 						name = "\"" + nm + "\"" // such a name can only be written as a quoted identifier
@@ -640,6 +645,24 @@ func genC18(g *Gen) {
 				seg = append(seg, mk([]string{"add", "add", "find", "findindex", "locate", "removebyname", "setvalue", "length"}[r.Intn(8)], r.Intn(1000)))
 			}
 			g.Run("names with unusual case mappings", seg)
+		}
+		// names that differ only in characters which are no letters (pairs that a bit trick folds together: ^ ~, [ {, ] }, @ `, _ DEL, \ |,
+		// digits and the characters 16 places below), names containing separators (comma, blank, dot, colon)
+		pairs := []string{"total^", "total~", "x[", "x{", "x]", "x}", "@v", "`v", "a_b", "a\x7fb", "p\\", "p|", "n1", "n!", "n0", "n ", "low,high", "low", "high", "a.b", "a:b", "a b", "ab"}
+		names = pairs
+		for i := 0; i < g.Pick(800, 8000); i++ {
+			seg := []Ev{{"op": "new", "kind": []string{"variables", "functions"}[r.Intn(2)]}}
+			for k := 3 + r.Intn(25); k > 0; k-- {
+				seg = append(seg, mk([]string{"add", "add", "find", "findindex", "locate", "removebyname", "setvalue", "length"}[r.Intn(8)], r.Intn(1000)))
+			}
+			g.Run("names that differ only in characters that are no letters", seg)
+		}
+		for _, kind := range []string{"variables", "functions"} {
+			for i := 0; i+1 < len(pairs); i += 2 {
+				a, b := pairs[i], pairs[i+1]
+				g.Run("names that differ only in characters that are no letters", []Ev{{"op": "new", "kind": kind}, {"op": "add", "name": a, "isnull": false}, {"op": "find", "name": b}, {"op": "findindex", "name": b},
+					{"op": "locate", "name": b}, {"op": "add", "name": b, "isnull": false}, {"op": "find", "name": b}, {"op": "find", "name": a}, {"op": "removebyname", "name": b}, {"op": "find", "name": a}, {"op": "length"}})
+			}
 		}
 		for _, kind := range []string{"variables", "functions"} {
 			for _, nm := range odd {
